@@ -1076,6 +1076,73 @@ class FuncAnalysis:
         return ev
 
 
+BORROWED_FIELDS = {'current': 'ldb_version_ref', 'mem': 'ldb_memtable_ref', 'imm': 'ldb_memtable_ref'}
+BORROW_STATS = {'locals_tracked': set(), 'uses_judged': set(), 'uses_after_ref': set()}
+
+
+def borrowed_rows(a, rel, fn, entry_state, linestates):
+    """Reference-counted objects reached through protected pointer fields (the current version, the memtables) may be freed by
+    another thread as soon as the mutex is released.  A local variable loaded from such a field (`v = db->versions->current`)
+    may therefore be used while the mutex is not held only after a reference was taken (`ldb_version_ref(v)` /
+    `ldb_memtable_ref(v)`).  Every use of such a local in a state other than `held` without a preceding reference is reported
+    as a row of the pseudo field `<borrowed:FIELD>`; the lock-table obligations then reject it like any unprotected access.
+    The lock state of a use is that after the last lock event / access / call that precedes it in the text of the function."""
+    if a.dom.get('mutex') is None or a.parse_error:
+        return []
+    toks = a.body
+    n = len(toks)
+    linestates = sorted(linestates)
+
+    def state_at(line):
+        st = entry_state
+        for (l, s_) in linestates:
+            if l <= line:
+                st = s_
+            else:
+                break
+        return st
+
+    out = []
+    tracked = {}      # var -> [field, refd]
+    i = 0
+    while i < n:
+        t = toks[i]
+        if t.k == 'id' and i + 1 < n and toks[i + 1].t == '=' and (i == 0 or toks[i - 1].t not in ('->', '.')):
+            # assignment to a plain identifier: find the end of the statement
+            j = i + 2
+            while j < n and toks[j].t not in (';', ','):
+                j += 1
+            rhs = toks[i + 2:j]
+            fld = None
+            if len(rhs) >= 3 and rhs[0].k == 'id' and rhs[0].t in a.bases and all((x.k == 'id') if (q % 2 == 0) else (x.t == '->') for q, x in enumerate(rhs)) \
+                    and len(rhs) % 2 == 1 and rhs[-1].t in BORROWED_FIELDS:
+                fld = rhs[-1].t
+            if fld is not None:
+                tracked[t.t] = [fld, False]
+                BORROW_STATS['locals_tracked'].add((rel, fn.split('<-')[0], t.t, t.line))
+            elif t.t in tracked:
+                del tracked[t.t]
+            i = j
+            continue
+        if t.k == 'id' and t.t in ('ldb_version_ref', 'ldb_memtable_ref') and i + 3 < n and toks[i + 1].t == '(' and toks[i + 2].k == 'id' and toks[i + 3].t == ')':
+            v = toks[i + 2].t
+            if v in tracked and BORROWED_FIELDS[tracked[v][0]] == t.t:
+                tracked[v][1] = True
+            i += 4
+            continue
+        if t.k == 'id' and t.t in tracked and (i == 0 or toks[i - 1].t not in ('->', '.')):
+            fld, refd = tracked[t.t]
+            BORROW_STATS['uses_after_ref' if refd else 'uses_judged'].add((rel, fn.split('<-')[0], t.t, t.line))
+            if not refd:
+                st = state_at(t.line)
+                if st != 'yes':
+                    row = (rel, fn, '<borrowed:%s>' % fld, 'read', st, t.line)
+                    if row not in out:
+                        out.append(row)
+        i += 1
+    return out
+
+
 class DomainAnalysis:
     """interprocedural driver for one (file, domain): entry states, exit summaries, rows"""
     def __init__(self, rel, P, dom, notes):
@@ -1195,8 +1262,17 @@ class DomainAnalysis:
         labels = {}           # label -> joined state of the gotos seen so far (previous pass)
         result = {}
 
+        linestates = []       # (line, lock state after the event), emit pass only: used by the borrowed-pointer rule below
+
         def do_events(ts, st, emit):
             for e in a._events(ts):
+                st = do_event(e, st, emit)
+                if emit and isinstance(e[-1], int):
+                    linestates.append((e[-1], st if st is not None else 'unknown'))
+            return st
+
+        def do_event(e, st, emit):
+            if True:
                 k = e[0]
                 if st is None:
                     # unreachable code: keep the rows, judged in state unknown
@@ -1350,6 +1426,9 @@ class DomainAnalysis:
             del sites[:]
             sites.extend(saved_sites)
         end = run_list(a.tree, entry_state, ctx, True)
+        for row in borrowed_rows(a, rel, fn, entry_state, linestates):
+            if row not in rows:
+                rows.append(row)
         ex = end
         for x in ctx['returns']:
             ex = join(ex, x)
